@@ -6,8 +6,9 @@
     Dev_GlobalSfWrite (what AddWithCarry / i_SRA / .signed() do on the shared register objects) TLC finds the
     3-state violation, likewise EvalSfWrite and ModeWrite.
  G  TLC enumerates the histories (HistoryGen*.cfg exhaustive, HistorySim.cfg simulated); for every ISA module
-    with semantics a deterministic pool of <= 6 blocks is found by a scan of the semantics functions (writers
-    of sf / misc / internals + sign-sensitive witnesses, plus the RV32 slt/sra pair); every history is executed
+    with semantics a deterministic pool of <= 6 blocks is found by a scan of the semantics functions and by
+    executing an exemplar of every mnemonic in a scratch interpreter (writers of sf / misc / internals +
+    sign-sensitive witnesses, plus the RV32 slt/sra pair); every history is executed
     in its own fork of a pristine process, after every step every stored map is re-evaluated by amoco itself
     (sigma >> map per written location, 3 fixed valuations); every block is analysed alone in a fresh
     interpreter for `base`; specs/HistoryTrace.tla decides Stable and HistoryFree from the logged evaluations.
